@@ -1,7 +1,7 @@
 (* C11 -- A SCHC packet is dispatched to the rule whose ID it starts with.
    Model: Schc.match_schc_packet (ruler.py).  Only statements; proofs in theories/SchcRules.v. *)
 From Coq Require Import ZArith List Bool.
-From MS Require Import PyBase Buffer Bits BufferAbs Schc SchcSpec SchcRules SchcBytes SchcRefine.
+From MS Require Import PyBase Buffer Bits BufferAbs Schc SchcSpec SchcRules SchcBytes SchcRefine Compute ParserBytes ParserRefine ComputeBytes ComputeRefine ManagerBytes ManagerRefine.
 Import ListNotations.
 Open Scope Z_scope.
 
@@ -35,8 +35,25 @@ Example c11_ex :
   match_schc_packet [r1; r2] [true;false;true;true] = Ok r2 /\ match_schc_packet [r1; r2] [true] = Exc RuleIDMatchError.
 Proof. vm_compute. split; reflexivity. Qed.
 
+(* rule-id dispatch on byte-level Buffers (Ruler.match_schc_packet with Buffer slices and ==) *)
+Theorem c11_found_bytes rules r s rest : bprefix_free rules -> Forall canon_rule rules ->
+  In r rules -> canon s -> abs s = abs (brule_id r) ++ rest ->
+  bmatch_schc_packet rules s = Ok r.
+Proof. exact (bytes_dispatch rules r s rest). Qed.
+Theorem c11_manager_bytes rules r s rest d : bprefix_free rules -> Forall canon_rule rules ->
+  In r rules -> canon s -> abs s = abs (brule_id r) ++ rest ->
+  bcm_decompress rules s d = bdecompress_c s r d.
+Proof. exact (bytes_dispatch_manager rules r s rest d). Qed.
+Theorem c11_compressed_bytes rules r pd d x : bprefix_free rules -> Forall canon_rule rules -> In r rules ->
+  canon_pdesc pd -> compress (abs_pdesc abs pd) (abs_rule abs r) d <> Exc Unmodelled ->
+  bcompress pd r d = Ok x -> bmatch_schc_packet rules x = Ok r.
+Proof. exact (bytes_dispatch_compressed rules r pd d x). Qed.
+
 Print Assumptions c11_dispatch.
 Print Assumptions c11_none.
 Print Assumptions c11_first.
 Print Assumptions c11_manager.
 Print Assumptions c11_dispatch_bytes.
+Print Assumptions c11_found_bytes.
+Print Assumptions c11_manager_bytes.
+Print Assumptions c11_compressed_bytes.
